@@ -7,7 +7,7 @@ TRUST = ['g++ 12 and its ASan/UBSan run-times', 'the harness engines under /veri
 PROPS = {
     'C06': A(level='model_checking',
              harnesses=[A(src='harness/c06_rbtree.cpp', san='asan')],
-             budget=A(quick=150, thorough=1500),
+             budget=A(quick=150, thorough=2400),
              bounds=A(quick='rbtree: pool N=5, all 3^5 key assignments, + N=7 distinct keys (asc/desc/mixed); rbtree_order N=7 with insert(before, x) for every before (1.27 million states); insert/remove histories of any length (fixpoint)',
                       thorough='rbtree: pool N=6, all 3^6 key assignments, + N=8 distinct; rbtree_order N=8; fixpoint'),
              assumptions=TRUST),
